@@ -106,7 +106,7 @@ fn case(cfg: &Config, tmp: &Path, idx: u64, r: &mut Rng, st: &mut Stats) {
         pool.push(("this is not an input of anthem (".to_string(), ext));
     }
     // place the files: random names, some inside (nested) directories
-    let names = ["a", "b", "m", "z", "0", "A", "_x", "k.1", "k.2"];
+    let names = ["a", "b", "m", "z", "0", "A", "_x", "k.1", "k.2", "d1", "d1-x", "d2", "zdir", "0dir+", "d1.sub"];
     let dirs = ["", "", "d1", "d2", "d1/sub", "zdir", "0dir"];
     let mut used: Vec<String> = Vec::new();
     for (content, ext) in &pool {
